@@ -150,6 +150,16 @@ func (r *dataReader) Read(b []byte) (n int, err error) {
 
 	if r.limited {
 		r.n -= int64(n)
+		if r.n == 0 && err == nil && r.state == stateBeginLine {
+			// A message of exactly the maximum size is still followed by
+			// its end marker.
+			if p, _ := r.r.Peek(3); string(p) == ".\r\n" {
+				r.r.Discard(3)
+				r.state = stateEOF
+				r.limited = false
+				err = io.EOF
+			}
+		}
 	}
 	return
 }
